@@ -88,9 +88,76 @@ class Desugar(ast.NodeTransformer):
         self.outside = cnt
         self._parts_lists(n)
         self._inline_tables(n)
+        self._split_buffer_reads(n)
         self.generic_visit(n)
         self.outside, self.k = saved
         return n
+
+    @staticmethod
+    def _split_buffer_reads(fn):
+        """`buf = s.read(36); a = buf[:32][::-1]; b = f(buf[32:])` -- a fixed number of bytes read in one go and used only through constant
+        slices that tile it in order, in the statements that follow immediately (nothing else touches the stream in between): each slice is
+        written back as the read of its own bytes, `a = s.read(32)[::-1]; b = f(s.read(4))`"""
+        for holder in ast.walk(fn):
+            for field in ("body", "orelse", "finalbody"):
+                stmts = getattr(holder, field, None)
+                if not isinstance(stmts, list) or not stmts or not isinstance(stmts[0], ast.stmt):
+                    continue
+                i = 0
+                while i < len(stmts):
+                    st = stmts[i]
+                    i += 1
+                    if not (isinstance(st, ast.Assign) and len(st.targets) == 1 and isinstance(st.targets[0], ast.Name) and isinstance(st.value, ast.Call)
+                            and isinstance(st.value.func, ast.Attribute) and st.value.func.attr == "read" and isinstance(st.value.func.value, ast.Name)
+                            and len(st.value.args) == 1 and isinstance(st.value.args[0], ast.Constant) and type(st.value.args[0].value) is int):
+                        continue
+                    buf, stream, total = st.targets[0].id, st.value.func.value.id, st.value.args[0].value
+                    every = [x for x in ast.walk(fn) if isinstance(x, ast.Name) and x.id == buf]
+                    if sum(1 for x in every if isinstance(x.ctx, ast.Store)) != 1:
+                        continue
+                    # the slices, in program order, within the statements directly after the read
+                    uses, pos, j, ok = [], 0, i, True
+                    while j < len(stmts) and ok and pos < total:
+                        nxt = stmts[j]
+                        subs = [x for x in ast.walk(nxt) if isinstance(x, ast.Subscript) and isinstance(x.value, ast.Name) and x.value.id == buf]
+                        names = [x for x in ast.walk(nxt) if isinstance(x, ast.Name) and x.id == buf]
+                        touches_stream = any(isinstance(x, ast.Name) and x.id == stream for x in ast.walk(nxt))
+                        if not subs:
+                            ok = not names and not touches_stream and isinstance(nxt, (ast.Assign, ast.Expr)) and False
+                            break
+                        if len(subs) != len(names) or touches_stream or isinstance(nxt, (ast.For, ast.While, ast.If, ast.Try, ast.With)):
+                            ok = False
+                            break
+                        subs.sort(key=lambda x: (x.lineno, x.col_offset))
+                        for sub in subs:
+                            sl = sub.slice
+                            if not (isinstance(sl, ast.Slice) and sl.step is None and all(b is None or (isinstance(b, ast.Constant) and type(b.value) is int and b.value >= 0) for b in (sl.lower, sl.upper))):
+                                ok = False
+                                break
+                            lo = sl.lower.value if sl.lower is not None else 0
+                            hi = sl.upper.value if sl.upper is not None else total
+                            if lo != pos or hi <= lo or hi > total:
+                                ok = False
+                                break
+                            uses.append((sub, hi - lo))
+                            pos = hi
+                        j += 1
+                    if not ok or pos != total or len(uses) != len([x for x in every if isinstance(x.ctx, ast.Load)]):
+                        continue
+                    for sub, width in uses:
+                        new = ast.Call(func=ast.Attribute(value=ast.Name(id=stream, ctx=ast.Load()), attr="read", ctx=ast.Load()), args=[ast.Constant(value=width)], keywords=[])
+                        ast.copy_location(new, sub)
+                        for parent in ast.walk(fn):
+                            for f_, v_ in ast.iter_fields(parent):
+                                if v_ is sub:
+                                    setattr(parent, f_, new)
+                                elif isinstance(v_, list):
+                                    for k_, item in enumerate(v_):
+                                        if item is sub:
+                                            v_[k_] = new
+                    stmts.remove(st)
+                    i -= 1
+        ast.fix_missing_locations(fn)
 
     @staticmethod
     def _inline_tables(fn):
